@@ -131,6 +131,11 @@ pub fn generate(ch: &mut Chunker, prop: &str, thorough: bool, seed: u64, replays
     match prop {
         "STEPS" => gen_steps(ch, &mut r, scale),
         "USTEPS" => gen_unfill_steps(ch, &mut r, scale),
+        "DSTEPS" => crate::steps::gen_indent_steps(ch, &mut r, scale),
+        "ISTEPS" => crate::steps::gen_inplace_steps(ch, &mut r, scale),
+        "CSTEPS" => crate::steps::gen_columns_steps(ch, &mut r, scale),
+        "FFSTEPS" => crate::steps::gen_ff_steps(ch, &mut r, scale),
+        "OSTEPS" => crate::steps::gen_opt_steps(ch, &mut r, scale),
         "C10" => gen_c10(ch, &mut r, thorough, scale),
         "C11" => gen_c11(ch, &mut r, thorough, scale),
         "C12" => gen_c12(ch, &mut r, thorough, scale),
